@@ -241,6 +241,11 @@ impl File {
     fn open(path: &PathBuf) -> (r: Result<File, IoError>)
         ensures r matches Ok(f) ==> f.path() == path.p,
     { unimplemented!() }
+    // create, failing if the path exists
+    #[verifier::external_body]
+    fn create_new(path: &PathBuf) -> (r: Result<File, IoError>)
+        ensures r matches Ok(f) ==> f.content() == Seq::<u8>::empty() && f.path() == path.p,
+    { unimplemented!() }
     // writes are modelled as appends: repositioning is only admitted on an empty file
     #[verifier::external_body]
     fn seek(&mut self, to: SeekFrom) -> (r: Result<u64, IoError>)
@@ -250,3 +255,8 @@ impl File {
     #[verifier::external_body]
     fn sync_all(&self) -> (r: Result<(), IoError>) { unimplemented!() }
 }
+// utils::fatal wrapper of File::create
+#[verifier::external_body]
+fn fatal_create_file(path: &Path) -> (r: Result<File, Failed>)
+    ensures r matches Ok(f) ==> f.content() == Seq::<u8>::empty() && f.path() == *path,
+{ unimplemented!() }
